@@ -212,10 +212,15 @@ def run_histories(tag, cases, variant="fixed"):
         if sum(1 for o in obs if o.get("hung")) >= 6:
             cases = cases[:len(obs)]       # enough failing inputs: the remaining histories are not run
             break
-    terms = [history_term(c, variant) for c in cases]
-    res, err = coq_eval(tag, ["Gen.Signals_gen", "Codec.Signals", "Job.JobModel", "Run.EvalJob"], terms, timeout=1500)
+    # (histories judged by monitors alone are not explored in the model: some are outside it, some would be too expensive)
+    idx = [k for k, c in enumerate(cases) if not c.get("monitor_only")]
+    terms = [history_term(cases[k], variant) for k in idx]
+    res0, err = coq_eval(tag, ["Gen.Signals_gen", "Codec.Signals", "Job.JobModel", "Run.EvalJob"], terms, timeout=1500)
     if err:
         raise RuntimeError("model evaluation failed: " + err[-1200:])
+    res = ["[]"] * len(cases)
+    for k, m in zip(idx, res0):
+        res[k] = m
     outl = []
     for case, o, m in zip(cases, obs, res):
         if m == MODEL_TIMEOUT:
